@@ -282,9 +282,125 @@ def translated_source_stream(ctx: Ctx, Tokenizer):
                                        "definitions translated from the source", req, out)
 
 
+def enc_tok(t) -> str:
+    return f"{enc_text(t.value)}/{TYPES[t.type]}/{SUBS[t.subtype]}"
+
+
+def enc_state(ret: str, offset, items, stack, pieces) -> str:
+    return " ".join([ret, str(offset), "I"] + [enc_tok(t) for t in items] + ["S"] + [enc_tok(t) for t in stack] + ["P"]
+                    + [enc_text(p) for p in pieces])
+
+
+METHODS = (("sci", "check_scientific_notation"), ("string", "parse_string"), ("error", "parse_error"),
+           ("operator", "parse_operator"), ("opener", "parse_opener"), ("closer", "parse_closer"),
+           ("separator", "parse_separator"), ("parse", "parse"))
+
+
+def translated_method_stream(ctx: Ctx, Tokenizer, Token):
+    """every method of the Tokenizer on harness-made instances vs the definitions translated from tokenizer.py: the instance is
+    put into every state the real main loop passes through at the head of an iteration (formula, offset, items, token_stack,
+    token) for every string of length <= 3 over the alphabet, plus hand-made states the loop never reaches; each of the eight
+    methods is then called on a copy of that state — also the ones the dispatcher would not have chosen there — and the
+    returned value / exception class and the whole state it leaves are compared."""
+    import common
+    snaps = []
+
+    class Probe(Tokenizer):
+        def check_scientific_notation(self):
+            snaps.append((self.formula, self.offset, list(self.items), list(self.token_stack), list(self.token)))
+            return super().check_scientific_notation()
+
+    L = 3
+    alpha3 = list("A1E.+-*%≥(){},;:\"'# \n") if ctx.quick else ALPHA
+    strs = [""] + ["".join(t) for n in (1, 2) for t in itertools.product(ALPHA, repeat=n)]
+    strs += ["".join(t) for t in itertools.product(alpha3, repeat=L)]
+    strs += ["SUM(1E+3,'a':'b')", "Data::'a-b'+1", "{1,2;3}", "f(g(1;2),\"x\"\"y\")≥2", "1.5E-2%", "#REF!+#N/A", "#REF", "(1,2)",
+             "a≥", "1≠", ">=1", "a<>b", "'a''b':'c'"]
+    for s in strs:
+        try:
+            Probe(s)
+        except Exception:  # noqa: BLE001   the snapshots up to the failure are what is wanted
+            pass
+    # states the main loop never reaches: offset at / past the end, closers against every kind of stacked token
+    odd = []
+    for f in ("", "A", ")", "}", ",", ";", "(", "{", "+", "'a'", '"a"', "#REF!", "≥"):
+        for off in range(0, len(f) + 2):
+            for pieces in ([], ["A"], ["1E"], ["T::"], ["a", ":"]):
+                odd.append((f, off, [], [], pieces))
+    for ty in ("FUNC", "ARRAY", "PAREN", "OPERAND", "SEP", "OPERATOR-INFIX"):
+        for st in ("OPEN", "CLOSE", ""):
+            for f in (")", "}", ",", "+"):
+                t = Token("x(", ty, st)
+                odd.append((f, 0, [t], [t], []))
+                odd.append((f, 0, [Token("1", "OPERAND", "NUMBER"), t], [Token("(", "PAREN", "OPEN"), t], []))
+    seen = set()
+    req, out = [], []
+    for formula, offset, items, stack, pieces in snaps + odd:
+        st_enc = " ".join([enc_text(formula), str(offset), str(len(items))] + [enc_tok(t) for t in items] + [str(len(stack))]
+                          + [enc_tok(t) for t in stack] + [str(len(pieces))] + [enc_text(p) for p in pieces])
+        if st_enc in seen:
+            continue
+        seen.add(st_enc)
+        for op, name in METHODS:
+            if op == "parse" and offset > len(formula):
+                continue
+            t = object.__new__(Tokenizer)
+            t.formula, t.offset, t.items, t.token_stack, t.token = formula, offset, list(items), list(stack), list(pieces)
+            req.append(f"tokm {op} {st_enc}")
+            try:
+                r = getattr(t, name)()
+                ret = "-" if r is None else ("1" if r is True else "0" if r is False else str(r))
+                out.append("ok " + enc_state(ret, t.offset, t.items, t.token_stack, t.token))
+                if op != "parse":
+                    ctx.mark(("tokm", op, st_enc))
+                # the property on one method: whatever a parse_* method consumes it adds, unchanged, to items or to the buffer
+                # (with a pending buffer only parse_string / parse_opener are ever reached: the dispatcher saves the token first)
+                if op not in ("sci", "parse") and (not pieces or op in ("string", "opener")):
+                    before = "".join(x.value for x in items) + "".join(pieces)
+                    after = "".join(x.value for x in t.items) + "".join(t.token)
+                    if after != before + formula[offset:offset + r]:
+                        ctx.violation(f"{name}-not-lossless", f"{name} at offset {offset} of {formula!r} (buffer {pieces!r}) reported "
+                                      f"{r} characters consumed but the texts kept went from {before!r} to {after!r}", {"text": formula})
+            except Exception as e:  # noqa: BLE001
+                out.append("err " + exc_name(e))
+    common.translated_only_stream(ctx, "every Tokenizer method on harness-made instances: every loop-head state of every string of "
+                                       f"length <= {L} (+ hand-made states) vs the definitions translated from the source", req, out)
+    # the Token constructors
+    req, out = [], []
+
+    def show(fn):
+        try:
+            return "ok " + enc_tok(fn())
+        except Exception as e:  # noqa: BLE001
+            return "err " + exc_name(e)
+    sub = "(){}a\n"
+    for n in range(0, 4):
+        for tup in itertools.product(sub, repeat=n):
+            v = "".join(tup)
+            for func in (False, True):
+                req.append(f"token subexp {enc_text(v)} {int(func)}")
+                out.append(show(lambda: Token.make_subexp(v, func=func)))
+            req.append(f"token separator {enc_text(v)}")
+            out.append(show(lambda: Token.make_separator(v)))
+    for v in (",", ";", ",;", ";;", "", "a"):
+        req.append(f"token separator {enc_text(v)}")
+        out.append(show(lambda: Token.make_separator(v)))
+    for ty in TYPES:
+        for st in SUBS:
+            if st in ("NUMBER", "RANGE"):
+                continue
+            for v in ("(", "SUM(", "{"):
+                t = Token(v, ty, st)
+                req.append(f"token closer {enc_tok(t)}")
+                out.append(show(t.get_closer))
+    common.translated_only_stream(ctx, "Token.make_subexp / get_closer / make_separator on short texts and every type / subtype "
+                                       "combination vs the definitions translated from the source", req, out, exhaustive=True)
+
+
 def run(ctx: Ctx):
-    from numbers_parser.tokenizer import Tokenizer, TokenizerError
+    from numbers_parser.tokenizer import Token, Tokenizer, TokenizerError
     translated_source_stream(ctx, Tokenizer)
+    translated_method_stream(ctx, Tokenizer, Token)
 
     def batch(name, strs, exhaustive=False):
         req = [f"tok tokenize {enc_text(s)}" for s in strs]
